@@ -176,7 +176,7 @@ func ruleHoleConsumer(rule string) ruleFn {
 			return false
 		}
 		cl := fa[0].(*ssa.Call)
-		okOff, okLen := fromRecv(cl.Call.Args[2], "offset"), fromRecv(cl.Call.Args[3], "len")
+		okOff, okLen := fromRecv(targetArgs(cl)[2], "offset"), fromRecv(targetArgs(cl)[3], "len")
 		// the descriptor: <received>.f.Fd()
 		okFd := false
 		var walk func(v ssa.Value, d int) bool
@@ -218,7 +218,7 @@ func ruleHoleConsumer(rule string) ruleFn {
 			}
 			return false
 		}
-		okFd = walk(cl.Call.Args[0], 0)
+		okFd = walk(targetArgs(cl)[0], 0)
 		key := FnName(fn) + " | punches the received request unchanged"
 		if okOff && okLen && okFd {
 			c.OK(rule, key, c.P.InstrPos(cl), "Fallocate(hole.f.Fd(), PUNCH, hole.offset, hole.len) with hole := <-HoleCreatorChan", false)
